@@ -234,6 +234,21 @@ PROPS['C05'] = {
         'unify, get_rule, Rule::get_head/get_body, Goal::key, get_var_id/set_var_id are ABSTRACT in this unit (signature only, arbitrary results): the clauses hold for every behaviour of theirs that returns; their own panics are outside (C06, C10, C18 cover them under their preconditions)',
     ],
 }
+PROPS['C19'] = {
+    'units': ['tokentree'],
+    'functions': [],
+    'oracles': {'*': 'c19_roundtrip'},
+    'bounded': [('c19_roundtrip', 'the round trip itself, BOUNDED: 43 rules and facts in the documented syntax (atoms, atoms with spaces, integers, floats, variables, $_, lists with tail variable, nested terms, '
+                                  'conjunction / disjunction in every mix of two and three levels, not, cut, fail, the built-in predicates, infix comparison and arithmetic, facts of several arities): the parser accepts each, '
+                                  'the printed value is the canonical text (the text itself; the functional form for infix operators and `name()` for a fact without arguments), and parsing the printed text gives an equal value')],
+    'not_covered': [
+        'PARTIAL.  PROVED (Verus, verbatim token_tree_to_goal in unit tokentree): the goal built for a conjunction / disjunction has the kind of the branch token and exactly one operand per child - no operand of a rule body is dropped (#operands_kept, #operand_per_child); '
+        'the children of an And / Or branch are operands only (Subgoal leaves and Group / And / Or branches: ttg_kids_ok, established by the grouping functions)',
+        'NOT PROVED, bounded only: the string-level inverse (print after parse = canonical text, parse after print = equal value) for terms, lists, numbers, built-ins and infix operators - Verus has no theory connecting Display output with parser input; '
+        'the 43 canonical texts of c19_roundtrip stand in for it, labelled bounded',
+        'outside the claim: parenthesised groups (not in the statement\'s list of documented syntax; Display writes no parentheses, so `(a; b), c` prints as `a; b, c`), and the observations of DESIGN.md 8.22 on number classification (C20)',
+    ],
+}
 PROPS['C02'] = {
     'units': ['solver'],
     'functions': SOLVER_FNS,
